@@ -2573,7 +2573,7 @@ class VirtualArrayType(ContentType):
     def tolayout(self, lookup, pos, fields):
         voidptr = ctypes.c_void_p(int(lookup.arrayptrs[pos + self.PYOBJECT]))
         pyptr = ctypes.cast(voidptr, ctypes.py_object)
-        ctypes.pythonapi.Py_IncRef(pyptr)
+        # .value already returns a new reference
         virtualarray = pyptr.value
         return virtualarray
 
